@@ -365,6 +365,45 @@ func (s *verifC04Server) age(d int) error {
 	return nil
 }
 
+// trashRequest builds one trash-list entry: mref = v0|v1 (the timestamp stored on that volume right
+// now), v0+|v1+ (one nanosecond later), a<k> (an unrelated time k units ago); mount = -|0|1|x.
+func (s *verifC04Server) trashRequest(vols []string, hi int, mref, mount string) (TrashRequest, error) {
+	var bm int64
+	plus := strings.HasSuffix(mref, "+")
+	mref = strings.TrimSuffix(mref, "+")
+	switch {
+	case mref == "v0" || mref == "v1":
+		vol := int(mref[1] - '0')
+		if vol < len(vols) {
+			if fi, err := os.Stat(s.blockPath(vol, hi)); err == nil {
+				bm = fi.ModTime().UnixNano()
+			}
+		}
+		if plus && bm != 0 {
+			bm++
+		}
+	case strings.HasPrefix(mref, "a"):
+		a, e := strconv.Atoi(mref[1:])
+		if e != nil || a < 0 {
+			return TrashRequest{}, fmt.Errorf("bad mref")
+		}
+		bm = time.Now().Add(-time.Duration(a) * verifC04Unit).UnixNano()
+	default:
+		return TrashRequest{}, fmt.Errorf("bad mref")
+	}
+	tr := TrashRequest{Locator: verifC04Hash(hi), BlockMtime: bm}
+	switch mount {
+	case "-":
+	case "0", "1":
+		tr.MountUUID = verifC04UUID(int(mount[0] - '0'))
+	case "x":
+		tr.MountUUID = "zzzzz-nyw5e-999999999999999"
+	default:
+		return TrashRequest{}, fmt.Errorf("bad mount")
+	}
+	return tr, nil
+}
+
 func (s *verifC04Server) waitTrashIdle() error {
 	deadline := time.Now().Add(30 * time.Second)
 	for time.Now().Before(deadline) {
@@ -475,6 +514,30 @@ func verifC04Hist(base string, f []string) (string, error) {
 					mnt.EmptyTrash()
 				}
 				r = "-"
+			case p[0] == "tl" && len(p) == 2:
+				// a trash list of several items in ONE PUT /trash: ReplaceQueue, then the trash worker
+				// takes and runs them one after the other (item := <h>/<mref>/<mount>, '&'-separated)
+				var trs []TrashRequest
+				for _, it := range strings.Split(p[1], "&") {
+					q := strings.Split(it, "/")
+					if len(q) != 3 {
+						return "", fmt.Errorf("hist: bad op %q", op)
+					}
+					hi, e := verifC04ParseHash(q[0])
+					if e != nil {
+						return "", e
+					}
+					tr, e := s.trashRequest(vols, hi, q[1], q[2])
+					if e != nil {
+						return "", fmt.Errorf("hist: bad op %q", op)
+					}
+					trs = append(trs, tr)
+				}
+				body, _ := json.Marshal(trs)
+				r = strconv.Itoa(s.do("PUT", "/trash", body, true).Code)
+				if err := s.waitTrashIdle(); err != nil {
+					return "", err
+				}
 			case len(p) >= 2:
 				hi, e := verifC04ParseHash(p[1])
 				if e != nil {
@@ -542,38 +605,8 @@ func verifC04Hist(base string, f []string) (string, error) {
 				case p[0] == "uuntrash" && len(p) == 2:
 					r = strconv.Itoa(s.do("PUT", "/untrash/"+h, nil, false).Code)
 				case p[0] == "ti" && len(p) == 4:
-					var bm int64
-					mref := p[2]
-					plus := strings.HasSuffix(mref, "+")
-					mref = strings.TrimSuffix(mref, "+")
-					switch {
-					case mref == "v0" || mref == "v1":
-						vol := int(mref[1] - '0')
-						if vol < len(vols) {
-							if fi, err := os.Stat(s.blockPath(vol, hi)); err == nil {
-								bm = fi.ModTime().UnixNano()
-							}
-						}
-						if plus && bm != 0 {
-							bm++
-						}
-					case strings.HasPrefix(mref, "a"):
-						a, e := strconv.Atoi(mref[1:])
-						if e != nil || a < 0 {
-							return "", fmt.Errorf("hist: bad op %q", op)
-						}
-						bm = time.Now().Add(-time.Duration(a) * verifC04Unit).UnixNano()
-					default:
-						return "", fmt.Errorf("hist: bad op %q", op)
-					}
-					tr := TrashRequest{Locator: h, BlockMtime: bm}
-					switch p[3] {
-					case "-":
-					case "0", "1":
-						tr.MountUUID = verifC04UUID(int(p[3][0] - '0'))
-					case "x":
-						tr.MountUUID = "zzzzz-nyw5e-999999999999999"
-					default:
+					tr, e := s.trashRequest(vols, hi, p[2], p[3])
+					if e != nil {
 						return "", fmt.Errorf("hist: bad op %q", op)
 					}
 					body, _ := json.Marshal([]TrashRequest{tr})
